@@ -52,6 +52,7 @@ type c13expect struct {
 	result *ts.Value
 	resTyp *ts.TypeExpr
 	seenID uint32
+	rep    int
 	fn     *ts.Def
 	argErr string
 }
@@ -95,6 +96,10 @@ func c13dyn(c *wk.Ctx) {
 			rt := exp.fn.Result
 			o := &ts.GenOpts{R: rand.New(rand.NewSource(int64(exp.seenID) + int64(len(in.Body)))), MaxDepth: 2, Costs: costs, ForceStrLen: -1, Simple: true}
 			exp.result = allSchema.GenType(rt, o)
+			// walk through the constructors of a boxed result type: repetition k answers with constructor k (mod n)
+			if cs := allSchema.ByResult[rt.Name]; !rt.Vector && !rt.Bare && len(cs) > 1 {
+				exp.result = allSchema.Gen(cs[exp.rep%len(cs)], o, 1)
+			}
 			exp.resTyp = rt
 			body, _ = ts.SerializeAs(exp.result, rt)
 		}
@@ -115,8 +120,15 @@ func c13dyn(c *wk.Ctx) {
 	fnCount := map[uint32][]string{}
 	idx := 0
 	cv := reflect.ValueOf(e.tc)
+	resultCons := func(name string) int {
+		// number of constructors of the method's declared result type (found through a dry lookup by Go name is not
+		// possible without re-implementing name mangling, so the count is learnt from the first call's function)
+		return 0
+	}
+	_ = resultCons
 	for _, name := range methods {
-		for rep := 0; rep < reps; rep++ {
+		nrep := reps
+		for rep := 0; rep < nrep; rep++ {
 			if c.Mine(idx) {
 				c.Begin(idx, "method "+name)
 				r := c.Rand(idx)
@@ -152,6 +164,7 @@ func c13dyn(c *wk.Ctx) {
 				}
 				exp.mu.Lock()
 				exp.args = args
+				exp.rep = rep
 				exp.fn, exp.result, exp.seenID, exp.argErr = nil, nil, 0, ""
 				exp.mu.Unlock()
 				var outs []reflect.Value
@@ -174,6 +187,17 @@ func c13dyn(c *wk.Ctx) {
 					}
 					if rep == 0 {
 						fnCount[fn.ID] = append(fnCount[fn.ID], name)
+						// every constructor of the declared result type gets its turn (at most 8 in quick)
+						if cs := allSchema.ByResult[fn.Result.Name]; !fn.Result.Vector && len(cs) > nrep {
+							nrep = len(cs)
+							if c.Quick() && nrep > 8 {
+								nrep = 8
+							}
+						}
+					}
+					if result != nil && result.Kind == ts.KCon {
+						c.Count("dyn.answers_by_constructor", 1)
+						c.Distinct("answer", name, result.Def.Name)
 					}
 					if argErr != "" {
 						c.Viol("C13", idx, "dyn/arguments/"+name, fmt.Sprintf("method %s -> %s: %s", name, fn.Name, argErr), name)
